@@ -957,3 +957,8 @@ _add_family(globals(), _cdv, 'composerdiv', _cdv.oracle, share=0.01)
 # the updater one instance's override names is that instance's alone (processes sharing a schema object)
 from harness import schemaleak as _sl                   # noqa: E402
 _add_family(globals(), _sl, 'schemaleak', lambda case, impl: _sl.oracle(case, impl, who=('values',)), share=0.01)
+
+
+# several ports on one node, falsy updates among them
+from harness import falsymulti as _fm                   # noqa: E402
+_add_family(globals(), _fm, 'falsymulti', _fm.oracle, share=0.04)
